@@ -65,7 +65,7 @@ CASES += [
     m("first addition stores the caller's array (the repaired defect)", "C19-G",
       "                    self.d__data = numpy.array(data)", "                    self.d__data = data", 5),
     m("spectrum built on a view of the stored array (the repaired defect)", "C19-G",
-      "        twod.set_data(numpy.array(self.d__data[:,:]))", "        twod.set_data(self.d__data[:,:])"),
+      "            twod.set_data(numpy.array(self.d__data[:,:]), dtype=dtype)", "            twod.set_data(self.d__data[:,:], dtype=dtype)"),
     t("first addition stores a copy made with the copy method",
       "                        self.d__data = numpy.array(data)", "                        self.d__data = data.copy()"),
 ]
@@ -74,4 +74,33 @@ CASES += [
     {"name": "container skips setting a flag it has set before", "kind": "mutant", "rule": "C19-H", "edits": [
         ("quantarhei/spectroscopy/twodcontainer.py", "        for tag in self.spectra:\n            \n            sp = self.spectra[tag]\n            sp.set_data_flag(flag)",
          "        if flag == getattr(self, \"_last_flag\", None):\n            return\n        for tag in self.spectra:\n            sp = self.spectra[tag]\n            sp.set_data_flag(flag)\n        self._last_flag = flag", 1)]},
+]
+
+CASES += [
+    m("setter shape refusal removed (the repaired defect)", "C19-I",
+      "            if value.shape != (self.xaxis.length, self.yaxis.length):\n                # if the data shape is not consistent, raise Exception\n                raise Exception(\"Data not consistent \"+\n                                \"with spectrum axes\")\n\n            storage = getattr(self, storage_name)\n",
+      "            storage = getattr(self, storage_name)\n"),
+    m("setter shape refusal behind a raise", "C19-I",
+      "            if value.shape != (self.xaxis.length, self.yaxis.length):\n                # if the data shape is not consistent, raise Exception\n                raise Exception(\"Data not consistent \"+\n                                \"with spectrum axes\")\n\n            storage = getattr(self, storage_name)\n",
+      "            if False:\n                raise Exception()\n                if value.shape != (self.xaxis.length, self.yaxis.length):\n                    raise Exception(\"Data not consistent\")\n\n            storage = getattr(self, storage_name)\n"),
+    m("setter shape refusal compares one axis only", "C19-I",
+      "            if value.shape != (self.xaxis.length, self.yaxis.length):\n                # if the data",
+      "            if value.shape[0] != self.xaxis.length:\n                # if the data"),
+    t("setter shape refusal written with not ==",
+      "            if value.shape != (self.xaxis.length, self.yaxis.length):\n                # if the data",
+      "            if not (value.shape == (self.xaxis.length, self.yaxis.length)):\n                # if the data"),
+    m("trim_to compares the resolution with the total signal (the repaired defect)", "C19-J",
+      "            elif self.storage_resolution == \"off\":\n                self.set_data_flag(_total)",
+      "            elif self.storage_resolution == _total:\n                self.set_data_flag(_total)"),
+    m("trim_to misspells a resolution", "C19-J",
+      "            elif self.storage_resolution == \"processes\":\n                \n                for typ in _processes:",
+      "            elif self.storage_resolution == \"process\":\n                \n                for typ in _processes:"),
+    m("view handed out as the total signal (the repaired defect)", "C19-K",
+      "            twod.set_data(numpy.array(self.d__data[:,:]), dtype=dtype)", "            twod.set_data(numpy.array(self.d__data[:,:]))"),
+    m("get_TwoDSpectrum leaves the flag on the view", "C19-K",
+      "            twod.set_data(numpy.array(self.d__data[:,:]), dtype=dtype)\n        finally:\n            self.set_data_flag(flag_saved)\n",
+      "            twod.set_data(numpy.array(self.d__data[:,:]), dtype=dtype)\n        finally:\n            pass\n"),
+    m("_add_data leaves the flag on the cell", "C19-K",
+      "                                   dtype=dtype, tag=tag)\n        finally:\n            self.set_data_flag(flag_saved)\n",
+      "                                   dtype=dtype, tag=tag)\n        finally:\n            pass\n"),
 ]
